@@ -101,28 +101,43 @@ enum WriterState {
 }
 
 /// Level 1: sender steps interleaved with hand-polling of the response writer.
-fn sender_writer(cfg: &RunCfg, oversize_stage: bool) -> Outcome {
+fn sender_writer(cfg: &RunCfg, oversize_stage: bool, script: Option<Vec<u8>>) -> Outcome {
+    let scripted = script.is_some();
     let (first, resp) = Response::event_stream();
     let mut resp = Some(resp);
     let mut hands: Vec<Hand> = vec![Hand { sender: Some(first) }];
     let mut model = Model { accepted: Vec::new(), live: 1 };
     // the writer side
-    let mut writer = ScriptWriter::new(match gen::below(4) {
-        0 => Pieces::Whole,
-        1 => Pieces::Random(5),
-        2 => Pieces::Random(300),
-        _ => Pieces::Random(70_000),
+    // In scripted (enumerated) mode the configuration is fixed and only the interleaving varies.
+    let mut writer = ScriptWriter::new(if scripted {
+        Pieces::Whole
+    } else {
+        match gen::below(4) {
+            0 => Pieces::Whole,
+            1 => Pieces::Random(5),
+            2 => Pieces::Random(300),
+            _ => Pieces::Random(70_000),
+        }
     });
-    writer.pending_64 = gen::pick(&[0u32, 0, 8, 24]);
+    writer.pending_64 = if scripted { 0 } else { gen::pick(&[0u32, 0, 8, 24]) };
     // client disappears after this many accepted bytes (None: stays)
-    let client_dies = if gen::ratio(1, 5) { Some(60 + gen::below(600) as usize) } else { None };
+    let client_dies = if !scripted && gen::ratio(1, 5) { Some(60 + gen::below(600) as usize) } else { None };
     if let Some(k) = client_dies {
         writer.fail_at = Some((k, ErrorKind::BrokenPipe));
     }
     // stalled client: the writer is simply not polled for a while
-    let stall = gen::ratio(1, 4);
-    let overrun = gen::ratio(1, 8);
-    let max_steps = if overrun { 130 } else { 3 + gen::below(24) };
+    let stall = !scripted && gen::ratio(1, 4);
+    let overrun = !scripted && gen::ratio(1, 8);
+    let max_steps = match &script {
+        Some(sc) => sc.len() as u32,
+        None => {
+            if overrun {
+                130
+            } else {
+                3 + gen::below(24)
+            }
+        }
+    };
 
     let cw = Arc::new(CountWake(AtomicU64::new(1)));
     let waker = Waker::from(cw.clone());
@@ -171,7 +186,23 @@ fn sender_writer(cfg: &RunCfg, oversize_stage: bool) -> Outcome {
         // choose: a sender step or a writer poll
         let writer_woken = cw.0.load(Ordering::SeqCst) != seen_wakes;
         let can_poll = fut.is_some() && writer_woken && !(stall && step < max_steps / 2);
-        let do_poll = can_poll && gen::ratio(if overrun { 1 } else { 2 }, 5);
+        // scripted step code: 0 = writer poll, 1 + 4*h + a = action a of sender hand h
+        let code = script.as_ref().map(|sc| sc[step as usize]);
+        if let Some(c) = code {
+            if c == 0 && !can_poll {
+                continue; // the writer was not woken: a real executor would not poll it
+            }
+            if c > 0 {
+                let h = ((c - 1) / 4) as usize;
+                if h >= hands.len() || hands[h].sender.is_none() {
+                    continue; // no such sender (any more): this step is a no-op
+                }
+            }
+        }
+        let do_poll = match code {
+            Some(c) => c == 0,
+            None => can_poll && gen::ratio(if overrun { 1 } else { 2 }, 5),
+        };
         if do_poll {
             if let Some(o) = poll_writer(&mut fut, &mut wstate, &mut seen_wakes) {
                 return o;
@@ -190,8 +221,10 @@ fn sender_writer(cfg: &RunCfg, oversize_stage: bool) -> Outcome {
             if live.is_empty() {
                 break;
             }
-            let h = live[gen::below(live.len() as u32) as usize];
-            let act = if overrun { 0 } else { gen::weighted(&[10, 2, 1, 1, 2]) };
+            let (h, act) = match code {
+                Some(c) => (((c - 1) / 4) as usize, ((c - 1) % 4) as usize),
+                None => (live[gen::below(live.len() as u32) as usize], if overrun { 0 } else { gen::weighted(&[10, 2, 1, 1, 2]) }),
+            };
             match act {
                 0 => {
                     let (ev, want) = loop {
@@ -393,10 +426,33 @@ fn body_chunks(out: &[u8]) -> Option<Vec<usize>> {
 }
 
 fn l1(cfg: &RunCfg) -> Outcome {
-    sender_writer(cfg, false)
+    sender_writer(cfg, false, None)
 }
 fn l1_oversize(cfg: &RunCfg) -> Outcome {
-    sender_writer(cfg, true)
+    sender_writer(cfg, true, None)
+}
+
+/// EVERY interleaving of up to `depth` steps over {writer poll} + {send, clone,
+/// disconnect, drop} x up to 3 sender hands, decoded from the run index (base 13, shorter
+/// sequences first). Event contents still come from the tape.
+fn interleavings(cfg: &RunCfg) -> Outcome {
+    let depth = if cfg.tier == crate::run::Tier::Thorough { 6 } else { 5 };
+    let mut idx = cfg.index;
+    let mut len = 1usize;
+    let mut block = 13u64;
+    while len < depth && idx >= block {
+        idx -= block;
+        block *= 13;
+        len += 1;
+    }
+    let mut script = Vec::new();
+    for _ in 0..len {
+        script.push((idx % 13) as u8);
+        idx /= 13;
+    }
+    let mut o = sender_writer(cfg, false, Some(script));
+    o.case_hash = cfg.index;
+    o
 }
 
 // ---------------------------------------------------------------------------- server level
@@ -553,9 +609,10 @@ pub fn spec() -> PropertySpec {
     PropertySpec {
         id: "C11",
         level: "exploration",
-        rule: "Level 1: Response::event_stream() with the real channel (safina::sync::sync_channel(50)), EventSender, EventReceiver, write_http_response and copy_chunked_async; the response writer future is polled by hand between sender steps, and ONLY when its waker fired (a lost wake-up is a verdict). Interleavings of {send(e_i), clone, disconnect, drop, is_connected, writer poll} for 1-4+ senders, 3-26 steps (130 to overrun the queue), with a sink that takes 1..n bytes per call, returns Pending, stalls for half the run, or fails after k bytes (client gone; the response is then dropped as the server does). Event contents over empty, multi-line with LF / CRLF / lone CR, trailing newline, leading space/colon, data:/event:/id:/retry: look-alikes, NUL, BOM, non-ASCII, custom types incl. empty / with colon / leading space, sizes just under the 65528-byte read limit; each event carries a unique id. Oracle: independent chunked decoder + independent WHATWG event-stream parser; accepted events (sender connected before and after send) must equal dispatched events in order, exactly once, with type and LF-normalised data recovered; no id/retry/unknown field may appear; a send may fail only if the queue can be full or the client is gone; terminating chunk iff all senders gone. Level 2: same through the full simulated server with sender actors, slow clients (back-pressure) and client RST. distinct = hash of the step trace.",
+        rule: "Level 1: Response::event_stream() with the real channel (safina::sync::sync_channel(50)), EventSender, EventReceiver, write_http_response and copy_chunked_async; the response writer future is polled by hand between sender steps, and ONLY when its waker fired (a lost wake-up is a verdict). An enumerated stage runs EVERY interleaving of up to 5 (quick) / 6 (thorough) steps over {writer poll, send, clone, disconnect, drop} for up to 3 senders; the sampled stage draws interleavings of {send(e_i), clone, disconnect, drop, is_connected, writer poll} for 1-4+ senders, 3-26 steps (130 to overrun the queue), with a sink that takes 1..n bytes per call, returns Pending, stalls for half the run, or fails after k bytes (client gone; the response is then dropped as the server does). Event contents over empty, multi-line with LF / CRLF / lone CR, trailing newline, leading space/colon, data:/event:/id:/retry: look-alikes, NUL, BOM, non-ASCII, custom types incl. empty / with colon / leading space, sizes just under the 65528-byte read limit; each event carries a unique id. Oracle: independent chunked decoder + independent WHATWG event-stream parser; accepted events (sender connected before and after send) must equal dispatched events in order, exactly once, with type and LF-normalised data recovered; no id/retry/unknown field may appear; a send may fail only if the queue can be full or the client is gone; terminating chunk iff all senders gone. Level 2: same through the full simulated server with sender actors, slow clients (back-pressure) and client RST. distinct = hash of the step trace.",
         scenarios: vec![
             Scenario { name: "c11.sender_writer", property: "C11", func: l1, runs_quick: 600_000, runs_thorough: 15_000_000, doc: "level 1" },
+            Scenario { name: "c11.interleavings", property: "C11", func: interleavings, runs_quick: 13 + 169 + 2197 + 28_561 + 371_293, runs_thorough: 13 + 169 + 2197 + 28_561 + 371_293 + 4_826_809, doc: "EVERY interleaving of up to 5 (quick) / 6 (thorough) steps over writer poll and {send, clone, disconnect, drop} of up to 3 senders" },
             Scenario { name: "c11.oversize", property: "C11", func: l1_oversize, runs_quick: 60_000, runs_thorough: 1_000_000, doc: "events may exceed the 65528-byte read buffer" },
             Scenario { name: "c11.server", property: "C11", func: server_level, runs_quick: 120_000, runs_thorough: 3_000_000, doc: "level 2" },
         ],
